@@ -1,10 +1,11 @@
 #!/bin/bash
 # Parallel regression over all seeded changes, on scratch worktrees of /repo
-# (never touches /repo's working tree):  seedsweep_par.sh [lanes]
+# (never touches /repo's working tree):  seedsweep_par.sh [lanes] [regex on seed names]
 # Prints one line per seed: DETECTED / MISSED / HARNESS-ERROR / patch does not apply.
 LANES=${1:-3}
 cd /verif
-seeds=(/verif/seeded/*/)
+FILTER=${2:-.}
+seeds=($(ls -d /verif/seeded/*/ | grep -E "$FILTER"))
 for ((l=0; l<LANES; l++)); do
   wt=/tmp/sweep_wt_$l
   git -C /repo worktree remove --force $wt 2>/dev/null
